@@ -439,9 +439,16 @@ scanopen(void)
 }
 
 void
-scansetloc(struct location loc)
+scansetloc(struct location loc, size_t line)
 {
-	scanner->loc = loc;
+	/*
+	loc names the line that used to be numbered `line`. The next
+	character has already been read and may be on a later line
+	(blank or spliced line after the directive), so keep its column
+	and shift its line number instead of overwriting them.
+	*/
+	scanner->loc.file = loc.file;
+	scanner->loc.line += loc.line - line;
 }
 
 static void
